@@ -31,6 +31,7 @@ META = {
         "C01.P3 array/list: header carries the element count, elements are encoded in order, decode threads the cursor through the children",
         "C01.P4 every normal path of every decode stores the decoded value",
         "C01.P5 every constructor hands every value other than None to set()",
+        "C01.P6 the range tests of the scalar and the list paths of BaseNumber.set agree for a float NaN (what the constructor accepts, decode accepts)",
         "C01.T3 format codes pairwise distinct and equal to E5",
         "C01.T4 a Dynamic decodes every concrete item class it can hold (format-code table complete, decoding restarts at the item start)",
     ],
@@ -385,6 +386,66 @@ def check_codes(ctx):
         ctx.ob("C01.T3", cname, ok, f"{cname}: format code {oct(codes[cname])} = E5" if ok else f"{cname}: format code {oct(codes[cname])}, E5 assigns 0o{r['items'][mnem]['octal']}", key="code", where=repo.cls(cname).where)
 
 
+def _unordered_verdict(test):
+    """Truth value of a range test for an operand that compares false with everything (a float NaN): ordering and equality
+    comparisons are false, `!=` is true; None when the test is not made of comparisons and connectives."""
+    if isinstance(test, ast.BoolOp):
+        vs = [_unordered_verdict(v) for v in test.values]
+        if any(v is None for v in vs):
+            return None
+        return all(vs) if isinstance(test.op, ast.And) else any(vs)
+    if isinstance(test, ast.UnaryOp) and isinstance(test.op, ast.Not):
+        v = _unordered_verdict(test.operand)
+        return None if v is None else not v
+    if isinstance(test, ast.Compare):
+        if all(isinstance(o, (ast.Lt, ast.LtE, ast.Gt, ast.GtE, ast.Eq, ast.NotEq)) for o in test.ops):
+            return all(isinstance(o, ast.NotEq) for o in test.ops)
+        return None
+    if isinstance(test, ast.Call) and isinstance(test.func, ast.Name) and test.func.id in ("any", "all") and len(test.args) == 1 and isinstance(test.args[0], (ast.GeneratorExp, ast.ListComp)):
+        return _unordered_verdict(test.args[0].elt)  # for the element in question
+    return None
+
+
+def check_range_tests_agree(ctx, rule="C01.P6"):
+    """The numeric classes share one validation for all widths, the float widths included.  A value the scalar path of
+    set() accepts must be accepted by the list paths (decode stores through set(list)): the range tests must give the same
+    answer for a value that is neither below the minimum nor above the maximum nor between them - a NaN, which
+    `x < lo or x > hi` lets pass and `not lo <= x <= hi` refuses."""
+    from .. import inline
+
+    repo = ctx.repo
+    verdicts = {}
+    for mname in ("set", "_set_list", "_set_bytearray"):
+        f = repo.cls("BaseNumber").find_method(mname)
+        if f is None:
+            continue
+        ctx.touch(f)
+        fn = inline.expanded(ctx, f, keep={"_set_list", "_set_bytearray", "set"} - {mname}) if mname == "set" else f.node
+        for n in ast.walk(fn):
+            if not isinstance(n, ast.If):
+                continue
+            names = {x.attr for x in ast.walk(n.test) if isinstance(x, ast.Attribute)}
+            if not {"_min", "_max"} <= names:
+                continue
+            v = _unordered_verdict(n.test)
+            ctx.require(v is not None, f"BaseNumber.{mname}: range test `{norm(n.test)[:80]}` is not made of comparisons - unknown idiom")
+            cfg = cfg_of(fn)
+            tnode = next((x for x in cfg.nodes if x.kind == "test" and x.ast is n.test), None)
+            ctx.require(tnode is not None, f"BaseNumber.{mname}: range test not in the flow graph")
+            heads = [x for x in cfg.nodes if x is not tnode and (x.kind == "iter" or (x.kind == "test" and getattr(x, "label", None) == "while"))]  # the next element is another question
+            raisers = [x for x in cfg.real_nodes() if isinstance(x.ast, ast.Raise)]
+            raises_then = any(cfg.path_exists(rules.branch_marker(tnode, "true"), r, avoid=heads + [tnode]) for r in raisers)
+            raises_else = any(cfg.path_exists(rules.branch_marker(tnode, "false"), r, avoid=heads + [tnode]) for r in raisers)
+            ctx.require(raises_then != raises_else, f"BaseNumber.{mname}: range test `{norm(n.test)[:80]}` does not lead to exactly one refusing branch - unknown idiom")
+            verdicts.setdefault(mname, set()).add(v if raises_then else not v)
+    ctx.require(len(verdicts) >= 2, "BaseNumber: fewer than two range tests found (set / _set_list / _set_bytearray) - the rule has lost its anchors")
+    flat = {m: sorted(v) for m, v in verdicts.items()}
+    ok = len({tuple(v) for v in flat.values()}) == 1 and all(len(v) == 1 for v in flat.values())
+    ctx.ob(rule, "BaseNumber.set", ok, "scalar and list paths of set() give the same answer for a value outside every ordering (NaN)" if ok else
+           f"the range tests disagree for a float NaN (refused: {flat}): a value accepted by one path of set() is refused by another - an F4/F8 accepted at construction does not decode (decode stores through set(list))",
+           key="range-tests-agree", where=repo.method("BaseNumber", "set", inherited=False).where)
+
+
 def run(ctx):
     intervals = _items.check_header_encode(ctx, "C01.B1", "Base", "encode_item_header", "format_code")
     _items.check_header_decode(ctx, "C01.B2", "Base", "decode_item_header", "variables", require_all_accepted=False)
@@ -395,6 +456,7 @@ def run(ctx):
     check_text(ctx)
     check_decode_stores(ctx)
     check_constructors(ctx)
+    check_range_tests_agree(ctx)
     check_codes(ctx)
     from .c02 import check_dynamic, check_start_defaults
 
